@@ -496,6 +496,7 @@ idiff_strp(const char *str, char **on, size_t len)
 			/* nope */
 			goto out;
 		}
+		break;
 	default:
 		goto out;
 	}
